@@ -17,6 +17,8 @@ class WalkError(Exception):
 OPNAMES = {"__add__": "add", "__radd__": "add", "__sub__": "sub", "__rsub__": "rsub", "__mul__": "mul",
            "__rmul__": "mul", "__neg__": "neg", "__abs__": "abs", "__floordiv__": "floordiv",
            "__rfloordiv__": "rfloordiv", "__mod__": "mod", "__rmod__": "rmod", "__getitem__": "getitem",
+           "__truediv__": "div", "__rtruediv__": "rdiv", "__pow__": "pow", "__rpow__": "rpow",
+           "__divmod__": "divmod", "__rdivmod__": "rdivmod",
            "__call__": "call", "__len__": "len"}
 ATTRS = {"a": 0, "b": 1, "total": 2}
 FUNS = {"comb": 0, "mkbox": 1, "pair": 2, "plain3": 3, "plain2": 4}
@@ -35,9 +37,11 @@ def canon(v):
     if isinstance(v, int):
         return str(v)
     if isinstance(v, float):
+        if v != v or v in (float("inf"), float("-inf")):
+            raise WalkError(f"non-finite float {v!r}")
         if v == int(v):
             return str(int(v))
-        raise WalkError(f"non-integral float {v!r}")
+        return qstr(Fraction(v))          # the exact value of the float
     if isinstance(v, tuple):
         return "[0:" + ",".join(canon(x) for x in v) + "]"
     if isinstance(v, list):
@@ -53,8 +57,8 @@ def const_tokens(v):
         raise WalkError("bool constant")
     if isinstance(v, int):
         return ["Z", str(v)]
-    if isinstance(v, float) and v == int(v):
-        return ["Z", str(int(v))]
+    if isinstance(v, float) and v == v and abs(v) != float("inf"):
+        return ["Z", str(int(v))] if v == int(v) else ["Q", qstr(Fraction(v))]
     if isinstance(v, (tuple, list)):
         t = ["T", "0" if isinstance(v, tuple) else "1", str(len(v))]
         for x in v:
@@ -114,8 +118,10 @@ class Walker:
         T = type(x)
         if T is D.DiscreteRange:
             if x.weights:
-                if list(x.options) != list(range(x.low, x.high + 1)) or len(x.cumulativeWeights) != len(x.options):
-                    raise WalkError("weighted DiscreteRange with inconsistent options")
+                # the model's values are low + k (k = index drawn by random.choices); the values the code
+                # really returns are observed on the enumerated runs, not taken from x.options here
+                if len(x.cumulativeWeights) != x.high - x.low + 1:
+                    raise WalkError("weighted DiscreteRange with inconsistent weights")
                 self.check_deps(x, [])
                 cum = [qstr(c) for c in x.cumulativeWeights]
                 return self.add(["W", str(x.low), str(len(cum))] + cum, [], "W")
@@ -187,6 +193,9 @@ def rexpr_tokens(e, bind):
     if k == "name":
         return bind(e[1])
     if k == "const":
+        if isinstance(e[1], dict):          # a float literal, sent as its exact value {"__q__": [n, d]}
+            n, d = e[1]["__q__"]
+            return ["K", "Z", str(n // d)] if n % d == 0 else ["K", "Q", f"{n}/{d}"]
         return ["K", "Z", str(e[1])]
     if k == "bin":
         return ["B", e[1]] + rexpr_tokens(e[2], bind) + rexpr_tokens(e[3], bind)
